@@ -20,8 +20,8 @@ Definition role_kind_ok (r : role) (k : kind) : Prop :=
 Definition link_spec (r : role) (p : id) (oc : obj) : Prop :=
   role_kind_ok r (okind oc) /\
   match r with
-  | RTop => f_pr oc = None /\ f_pss oc = Some p
-  | RSub => f_pr oc = Some p /\ f_pss oc = None
+  | RTop => f_pr oc = None /\ f_pss oc = Some p /\ f_par oc = None
+  | RSub => f_pr oc = Some p /\ f_pss oc = None /\ f_par oc = Some p
   | RStyle | RSelList | RMedia => f_pr oc = Some p
   | RImported => f_own oc = Some p
   | RItem | RPV => f_par oc = Some p
@@ -369,12 +369,8 @@ Definition accessors_name (r : role) (p : id) (oc : obj) : Prop :=
 
 Lemma link_spec_accessors r p oc : link_spec r p oc -> accessors_name r p oc.
 Proof.
-  unfold link_spec, accessors_name, acc_parent, acc_parentRule, acc_ownerRule, is_rule.
-  destruct r; simpl; intros [K F]; try exact F.
-  - rewrite K. simpl. tauto.
-  - rewrite K. simpl. tauto.
-  - destruct K as [K|[K|K]]; rewrite K; simpl; exact F.
-  - rewrite K. simpl. exact F.
+  unfold link_spec, accessors_name, acc_parent, acc_parentRule, acc_ownerRule.
+  destruct r; simpl; intros [K F]; try exact F; tauto.
 Qed.
 
 Theorem links_mirror_l : forall h, LinksOk h ->
